@@ -39,6 +39,15 @@ func verifDrain()
 func verifYield()
 func verifAllowBlock()
 func verifInlineGo(on bool)
+
+// verifOnSync installs an environment hook that the engine runs before every
+// synchronisation operation (mutex, atomic, channel, select) of the harness
+// thread: interference by other goroutines at exactly those points.
+func verifOnSync(f func())
+
+// verifOnBlock installs a hook that runs when no thread can make progress
+// (terminal state); with it installed, blocking for ever ends the path quietly.
+func verifOnBlock(f func())
 func verifThreadID() int
 func verifLiveGoroutines() int
 func verifSpawnCount() int
